@@ -12,7 +12,7 @@ META = {
     "level": "model_checking",
     "technique": "TLA+ spec Atlas (transcription + independent C19 predicates), TLC exhaustive over all order types; real Atlas.path/matched_path outputs validated by TLC trace spec AtlasTrace",
     "text": "TLC enumerates every order type (ties, unsorted, 0, infinity) of three matching scales x origin x target (nf 3-6 or unspecified) and checks the transcribed slicing algorithm against predicates written from the statement; the real Atlas is then executed on the same instance space and on random float scales and TLC evaluates the same predicates on the implementation's own paths, plus equality with the spec's path.",
-    "note": "Scales enter only through their order; domain 0..INF realises all order types of 5 scales. nf restricted to 3..6. Default flow is undefined for unsorted matching scales (the code raises ValueError there, accepted).",
+    "note": "Scales enter only through their order; domain 0..INF realises all order types of 5 scales. nf restricted to 3..6, passed as a Python int or (30%) as a NumPy integer scalar. Default flow is undefined for unsorted matching scales (the code raises ValueError there, accepted).",
     "design_ref": "4.2, 5 C19",
     "rule": "instance = (order type of 3 matching scales, origin (scale,nf|None), target (scale,nf|None)); non-trivial = path with >= 2 segments; distinct by the full token tuple",
 }
@@ -29,7 +29,17 @@ def _tok_maps(rng):
     return t2f
 
 
-def run_instance(ms, o, t, t2f):
+def _num(rng, nf):
+    """nf (and scales) as a caller may hold them: Python numbers or NumPy scalars."""
+    import numpy as np
+
+    if not nf:
+        return None
+    u = rng.random() if rng is not None else 1.0
+    return np.int64(nf) if u < 0.2 else np.int32(nf) if u < 0.3 else nf
+
+
+def run_instance(ms, o, t, t2f, rng=None):
     from eko import matchings
 
     f2t = {v: k for k, v in t2f.items()}
@@ -40,9 +50,9 @@ def run_instance(ms, o, t, t2f):
 
     try:
         atlas = matchings.Atlas(
-            [t2f[m] for m in ms], (t2f[o[0]], o[1] if o[1] else None)
+            [t2f[m] for m in ms], (t2f[o[0]], _num(rng, o[1]))
         )
-        target = (t2f[t[0]], t[1] if t[1] else None)
+        target = (t2f[t[0]], _num(rng, t[1]))
         path = atlas.path(target)
         matched = atlas.matched_path(target)
     except Exception as ex:  # noqa: BLE001 - the exception class is the observation
@@ -133,14 +143,14 @@ def run(chk):
     if not chk.thorough():
         space = chk.rng.sample(space, 40000)
     for ms, o, t in space:
-        rec = run_instance(ms, o, t, t2f)
+        rec = run_instance(ms, o, t, t2f, chk.rng)
         recs.append(rec)
         chk.count(1, (ms, o, t), nontrivial=len(rec["path"]) >= 2)
     # ---- B3: random float scales ----------------------------------------------------------
     nrand = 100000 if chk.thorough() else 15000
     for _ in range(nrand):
         ms, o, t, m = random_instance(chk.rng)
-        rec = run_instance(ms, o, t, m)
+        rec = run_instance(ms, o, t, m, chk.rng)
         recs.append(rec)
         chk.count(1, ("r", ms, o, t), nontrivial=len(rec["path"]) >= 2)
     for rec in recs[:2] + [x for x in recs if len(x["path"]) >= 3][:2]:
